@@ -4255,9 +4255,11 @@ class Parameters:
         for k in args + ordering:
             if k in processed: continue
 
-            # Suppresses automatically generated names.
+            # Suppresses automatically generated names (the class name
+            # followed by a counter of at least five digits); a shorter
+            # number can only have been given explicitly, e.g. 'Unit1'
             if k == 'name' and (values[k] is not None
-                                and re.match('^'+self.__class__.__name__+'[0-9]+$', values[k])):
+                                and re.match('^'+self.__class__.__name__+'[0-9]{5,}$', values[k])):
                 continue
 
             value = pprint(values[k], imports, prefix=prefix,settings=[],
